@@ -6,7 +6,9 @@
 #   function request -> response; whether the response of a request satisfies a matching parameter is an abstract
 #   (symbolic) fact, fixed per (parameter, request).  Which identification requests coincide is part of the family.
 # matching_parameter_semantics: the real MatchingParameter.matches on concrete value shapes.
+from contracts import build as B
 from odxtools.diaglayers.ecuvariant import EcuVariant
+from odxtools.diagservice import DiagService
 from odxtools.exceptions import DecodeError
 from odxtools.matchingparameter import MatchingParameter
 from odxtools.variantmatcher import VariantMatcher
@@ -28,17 +30,17 @@ class GhostResponse:
         raise DecodeError("ghost: not my response")
 
 
-class GhostService:
-
-    def __init__(self, req, same_answer=False):
-        self.req = req
-        # (same_answer: an ECU that answers different identification requests with the same bytes)
-        self.answer = b"\x62\xff" if same_answer else b"\x62" + req[1:]
-        self.positive_responses = [GhostResponse(self)]
-        self.negative_responses = []
-
-    def encode_request(self):
-        return self.req
+def IdentService(req, same_answer=False):
+    """a real DiagService (created without its constructor) with a real request of coded constants: the request bytes
+    are what the real DiagService.encode_request / Request.encode produce; responses and the answer are ghosts"""
+    svc = DiagService.__new__(DiagService)
+    svc._request = B.request([B.coded_const(f"b{i}", req[i], i) for i in range(len(req))])
+    svc.req = req
+    # (same_answer: an ECU that answers different identification requests with the same bytes)
+    svc.answer = b"\x62\xff" if same_answer else b"\x62" + req[1:]
+    svc._positive_responses = [GhostResponse(svc)]
+    svc._negative_responses = []
+    return svc
 
 
 class GhostMatchingParam:
@@ -90,14 +92,14 @@ def _fam(tier, seed):
          "identification requests all distinct or all shared; match facts symbolic",
          functions=[VariantMatcher.__init__, VariantMatcher.request_loop, VariantMatcher.evaluate,
                     VariantMatcher.has_match, VariantMatcher.is_pending, VariantMatcher._ident_response_matches,
-                    VariantMatcher._update_cache, VariantMatcher._get_ident_response],
+                    VariantMatcher._update_cache, VariantMatcher._get_ident_response, DiagService.encode_request],
          covers=["match", "no-match"])
 def matcher_selects_first_match(shape, sharing):
     """the matcher reports the first candidate (list order) that has a pattern all of whose parameters match the ECU's
     answers, NO_MATCH otherwise; same outcome with and without cache; only identification requests of the candidates
     are issued; with the cache no request is issued twice"""
     facts = {}
-    services = {r: GhostService(r, sharing == "distinct-same-answer") for r in REQS}
+    services = {r: IdentService(r, sharing == "distinct-same-answer") for r in REQS}
     variants = []
     n = 0
     all_params = []
@@ -123,10 +125,14 @@ def matcher_selects_first_match(shape, sharing):
 
         def ecu_step(item):
             phys, req = item
-            issued.append(req)
-            matcher.evaluate(services[req].answer)
+            issued.append(bytes(req))
+            matcher.evaluate(services[bytes(req)].answer)
 
-        H.consume(matcher.request_loop, ecu_step)
+        try:
+            H.consume(matcher.request_loop, ecu_step)
+        except Exception:
+            H.check("C14:identification-completes-with-real-request-encodings", False)
+            return
         H.check("C14:only-identification-requests-of-the-candidates-are-issued",
                 all([r in [mp.service.req for mp in all_params] for r in issued]))
         if use_cache:
@@ -152,6 +158,83 @@ def matcher_selects_first_match(shape, sharing):
         H.check("C14:first-candidate-with-a-fully-matching-pattern-is-reported",
                 H.And(has == (expected is not None), mv is expected))
     H.check("C14:outcome-does-not-depend-on-caching", outcomes[0][1] is outcomes[1][1])
+
+
+# ---------------------------------------------------------------------------------------------------------------
+# the same matcher over *real* patterns and matching parameters (EcuVariantPattern / BaseVariantPattern,
+# MatchingParameter / MatchingBaseVariantParameter, get_ident_service through the layer's real service list): a pattern
+# matches iff every one of its parameters' expected values equals the value the ECU reports - several parameters may
+# name the same output parameter of the same service, and the expected value is compared as written
+from odxtools.basevariantpattern import BaseVariantPattern  # noqa: E402
+from odxtools.diaglayers.basevariant import BaseVariant  # noqa: E402
+from odxtools.ecuvariantpattern import EcuVariantPattern  # noqa: E402
+from odxtools.matchingbasevariantparameter import MatchingBaseVariantParameter  # noqa: E402
+from odxtools.nameditemlist import NamedItemList  # noqa: E402
+
+ALPHABET = ["3", "7", " 3", "AB12", "AB12    "]
+
+
+class ValueResponse:
+    """decodes any answer to {"id": <the value the ECU reports>}"""
+
+    def __init__(self, value):
+        self.value = value
+
+    def decode(self, response_bytes):
+        return {"id": self.value}
+
+
+class GhostVariantRaw:
+
+    def __init__(self, name):
+        self.short_name = name
+        self.ecu_variant_patterns = []
+        self.base_variant_pattern = None
+
+
+@harness(props=["C14"], strength="B", family=lambda t, s: [{"kind": k, "n": n} for k in ("ecu", "base") for n in (1, 2)],
+         bound="one candidate with one pattern of 1..2 real matching parameters naming the same output parameter of one "
+         "real identification service; expected values and the reported value from a 5-value alphabet with leading and "
+         "trailing blanks",
+         functions=[VariantMatcher.request_loop, VariantMatcher._ident_response_matches,
+                    EcuVariantPattern.get_matching_parameters, BaseVariantPattern.get_matching_parameters,
+                    MatchingParameter.get_ident_service, MatchingParameter.matches,
+                    MatchingBaseVariantParameter.use_physical_addressing],
+         covers=["match", "no-match"])
+def real_patterns_match_iff_all_expected_values_are_reported(kind, n):
+    """a candidate is reported iff every matching parameter of its pattern finds its expected value, as written, in the
+    ECU's answer"""
+    reported = H.pick("reported_value", ALPHABET)
+    svc = IdentService(b"\x22\x01")
+    svc.short_name = "ident"
+    svc._positive_responses = [ValueResponse(reported)]
+    expected = [H.pick(f"expected{i}", ALPHABET) for i in range(n)]
+    if kind == "ecu":
+        params = [MatchingParameter(expected_value=e, diag_comm_snref="ident", out_param_if_snref="id",
+                                    out_param_if_snpathref=None) for e in expected]
+        variant = EcuVariant.__new__(EcuVariant)
+        variant.diag_layer_raw = GhostVariantRaw("candidate")
+        variant.diag_layer_raw.ecu_variant_patterns = [EcuVariantPattern(matching_parameters=params)]
+    else:
+        params = [MatchingBaseVariantParameter(expected_value=e, diag_comm_snref="ident", out_param_if_snref="id",
+                                               out_param_if_snpathref=None, use_physical_addressing_raw=None)
+                  for e in expected]
+        variant = BaseVariant.__new__(BaseVariant)
+        variant.diag_layer_raw = GhostVariantRaw("candidate")
+        variant.diag_layer_raw.base_variant_pattern = BaseVariantPattern(matching_base_variant_parameters=params)
+    variant._diag_services = NamedItemList([svc])
+    variant._global_negative_responses = []
+    for use_cache in (False, True):
+        matcher = VariantMatcher([variant], use_cache=use_cache)
+
+        def ecu_step(item):
+            matcher.evaluate(b"\x62\x01")
+
+        H.consume(matcher.request_loop, ecu_step)
+        want = all([e == reported for e in expected])
+        H.cover("match" if want else "no-match")
+        H.check("C14:candidate-reported-iff-all-expected-values-are-reported-as-written",
+                H.And(matcher.has_match() == want, (matcher.matching_variant is variant) == want))
 
 
 VALUES = {
